@@ -56,6 +56,46 @@ def _nest(n):
     return body[0]
 
 
+def _exprs(node):
+    """every expression node of a program / function / statement list"""
+    if isinstance(node, dict):
+        if "k" in node and "i" in node and "f" in node and "arms" not in node:
+            yield node
+        for v in node.values():
+            yield from _exprs(v)
+    elif isinstance(node, list):
+        for v in node:
+            yield from _exprs(v)
+
+
+def _lets(node):
+    if isinstance(node, dict):
+        if node.get("k") == "let" and "arms" in node:
+            yield node
+        for v in node.values():
+            yield from _lets(v)
+    elif isinstance(node, list):
+        for v in node:
+            yield from _lets(v)
+
+
+LIBC_NAMES = {"log", "exp", "sin", "cos", "tan", "pow", "sqrt", "floor", "ceil", "round", "abs", "time", "index", "remove", "rename", "exit", "read", "write", "open", "close", "link", "signal", "y0", "y1", "j0", "j1"}
+CMP = ("<", "<=", ">", ">=", "==", "!=")
+# the syntactic shape a known C-compilation finding is tied to: the finding explains a failure only in a program of that shape
+PROGRAM_HAS = {
+    "neg_of_negative_literal": lambda p: any(e["k"] == "un" and e["s"] == "-" and e["a"][0]["k"] == "int" and e["a"][0]["i"][0] >= 32768 for e in _exprs(p)),
+    "literal_arithmetic": lambda p: any(e["k"] == "bin" and e["s"] in ("+", "-", "*") and all(a["k"] == "int" for a in e["a"]) for e in _exprs(p)),
+    "self_comparison": lambda p: any(e["k"] == "bin" and e["s"] in CMP and e["a"][0] == e["a"][1] for e in _exprs(p)),
+    "strlen_in_comparison": lambda p: any(e["k"] == "bin" and e["s"] in CMP and any(a["k"] == "call" and a["s"] == "str_length" for a in e["a"]) for e in _exprs(p)),
+    "enum_in_composite": lambda p: any(e["k"] in ("tlit", "alit") and any(a["k"] == "enum" for a in e["a"]) for e in _exprs(p))
+                                   or any(l["t"].startswith("(") and "Color" in l["t"] for l in _lets(p)),
+    "let_mentions_own_name": lambda p: any(any(e["k"] == "var" and e["s"] == l["s"] for e in _exprs(l["a"])) for l in _lets(p)),
+    "struct_literal_in_math_call": lambda p: any(e["k"] == "call" and e["s"] in ("abs", "min", "max") and any(x["k"] == "slit" for x in _exprs(e["a"])) for e in _exprs(p)),
+    "string_ordering": lambda p: any(e["k"] == "bin" and e["s"] in ("<", "<=", ">", ">=") and any(a["k"] == "str" for a in e["a"]) for e in _exprs(p)),
+    "global_named_like_libc": lambda p: any(g["n"] in LIBC_NAMES for g in p.get("globals", [])),
+}
+
+
 VM_STUCK = re.compile(r"type error|incompatible types|not a[n]? \w+|[Uu]ndefined|not found|Bad instruction|Unknown opcode|[Ss]tack (over|under)flow|out of range|not implemented", re.I)
 VM_DOCUMENTED = re.compile(r"Assertion failed|out of bounds|Call depth exceeded|array is empty", re.I)
 
@@ -145,7 +185,8 @@ def run(ctx):
         for f in kf:
             mt = f.get("match", {})
             if "zoo" in mt and pid == "zoo_" + mt["zoo"] and all(re.search(mt.get("class_regex", "."), b) for b in bad): hit = f["id"]
-            if "class_regex" in mt and "zoo" not in mt and "rules" not in mt and all(re.search(mt["class_regex"], b) for b in bad): hit = f["id"]
+            if "class_regex" in mt and "zoo" not in mt and "rules" not in mt and all(re.search(mt["class_regex"], b) for b in bad) \
+                    and ("program_has" not in mt or PROGRAM_HAS[mt["program_has"]](progs[pid])): hit = f["id"]
             if "rules" in mt and pid in what and what[pid]["rule"] in mt["rules"] and re.search(mt.get("what_regex", "."), what[pid]["what"]): hit = f["id"]
         if hit:
             ctx.known(hit, "%s: %s" % (pid, "; ".join(bad)[:150])); stats["known:" + hit] += 1
